@@ -88,7 +88,7 @@ def as_seq(ctx, v, tag="q"):
     if isinstance(v, Seq):
         return v
     if isinstance(v, Arr):
-        ln = I.const_sym(len(v.elems), I.usize_rng(), S)
+        ln = I.const_sym(len(v.elems), I.len_rng(), S)
         return Seq("array", ln, I.join_vals(S, list(v.elems), ctx.site + (tag,)) if v.elems else None, (), None, frozenset())
     return None
 
@@ -98,8 +98,8 @@ def len_sym(ctx, v):
     if isinstance(v, Seq):
         return v.len
     if isinstance(v, Arr):
-        return I.const_sym(len(v.elems), I.usize_rng(), S)
-    return ctx.fresh("len?", I.usize_rng(), D.rng(0, I.max_len()))
+        return I.const_sym(len(v.elems), I.len_rng(), S)
+    return ctx.fresh("len?", I.len_rng(), D.rng(0, I.max_len()))
 
 
 def elem_ref(ref, tag=("elem",)):
@@ -231,7 +231,7 @@ def sub_seq(ctx, v, new_len_lin, tag):
     if q is None:
         q = Seq("slice", len_sym(ctx, v), Opaque(), (), None, frozenset())
     iv = D.meet(S.eval(new_len_lin), D.rng(0, I.max_len()))
-    ns = ctx.fresh(tag, I.usize_rng(), iv, new_len_lin)
+    ns = ctx.fresh(tag, I.len_rng(), iv, new_len_lin)
     return Seq(q.kind if q.kind in ("slice", "str") else "slice", ns, q.elem, q.efacts, None, q.prov)
 
 
